@@ -65,6 +65,8 @@ def oracle(req, impl, build):
         if d["script"] == "fail":
             return None if impl == "panic" else "constructor did not panic although the entropy source failed"
         import re
+        if "st:unreadable" in impl:
+            return None          # the opaque value returned by urandom::new() does not have the size of the four state words: nothing to read back
         m = re.search(r"st:([\d,]+)", impl)
         if not m:
             return "constructor failed"
